@@ -196,4 +196,210 @@ theorem strStep_adv_append (c : UInt8) (r1 e : Bytes) (v : Bool) (k : Nat) (g : 
         exact absurd h (by simp)
 
 
+theorem lowSurrogateStep_flags (v1 : Nat) (f1 : VFlags) (r6 : Bytes) :
+    (lowSurrogateStep v1 f1 r6).flags = f1 ∨ (lowSurrogateStep v1 f1 r6).flags = f1.join .nc := by
+  unfold lowSurrogateStep
+  repeat' split
+  all_goals simp [Step.flags]
+
+theorem lowSurrogateStep_eof (v1 : Nat) (f1 : VFlags) (r6 : Bytes) (g : VFlags)
+    (h : lowSurrogateStep v1 f1 r6 = .stop g .eof) : g = f1 := by
+  unfold lowSurrogateStep at h
+  repeat' split at h
+  all_goals simp_all
+
+theorem join_absorb_of_nv (x : VFlags) (h : x.nonVerbatim = true) : VFlags.nv.join x = x := by
+  cases x; simp_all [VFlags.join, VFlags.nv]
+
+theorem escStep_flags_nv (r : Bytes) (v : Bool) : (escStep r v).flags.nonVerbatim = true := by
+  cases r with
+  | nil => simp [escStep, Step.flags, VFlags.nv]
+  | cons c1 r2 =>
+    by_cases hs : (c1 == 0x2F) = true
+    · simp [escStep, hs, Step.flags, VFlags.nvnc]
+    · by_cases hq : isSimpleEscape c1 = true
+      · simp [escStep, hs, hq, Step.flags, VFlags.nv]
+      · by_cases hu : (c1 == 0x75) = true
+        · have hc : c1 = 0x75 := by simpa using hu
+          subst hc
+          rcases r2 with _ | ⟨h0, _ | ⟨h1, _ | ⟨h2, _ | ⟨h3, r6⟩⟩⟩⟩
+          case cons.cons.cons.cons =>
+            rw [escStep_u_long]
+            cases hp : parseHex4 h0 h1 h2 h3 with
+            | none => simp [Step.flags, VFlags.nvnc]
+            | some v1 =>
+              simp only
+              by_cases hsur : (v && Utf8.isSurrogate v1) = true
+              · simp only [hsur, if_true]
+                rcases lowSurrogateStep_flags v1 ⟨true, uEscNonCanonical v1 h0 h1 h2 h3⟩ r6 with h | h <;>
+                  rw [h] <;> simp [VFlags.join]
+              · simp only [hsur, Bool.false_eq_true, if_false, Step.flags]
+          all_goals (simp only [escStep, isSimpleEscape]; simp; split <;> simp [Step.flags, VFlags.nv, VFlags.nvnc])
+        · simp [escStep, hs, hq, hu, Step.flags, VFlags.nvnc]
+
+theorem escStep_eof_absorb (r1 e : Bytes) (v : Bool) (g : VFlags) (h : escStep r1 v = .stop g .eof) :
+    g.join (escStep (r1 ++ e) v).flags = (escStep (r1 ++ e) v).flags := by
+  have hnv := escStep_flags_nv (r1 ++ e) v
+  cases r1 with
+  | nil =>
+    have : g = .nv := by simp [escStep] at h; exact h.symm
+    subst this; exact join_absorb_of_nv _ hnv
+  | cons c1 r2 =>
+    by_cases hs : (c1 == 0x2F) = true
+    · simp [escStep, hs] at h
+    · by_cases hq : isSimpleEscape c1 = true
+      · simp [escStep, hs, hq] at h
+      · by_cases hu : (c1 == 0x75) = true
+        · have hc : c1 = 0x75 := by simpa using hu
+          subst hc
+          rcases r2 with _ | ⟨h0, _ | ⟨h1, _ | ⟨h2, _ | ⟨h3, r6⟩⟩⟩⟩
+          case cons.cons.cons.cons =>
+            simp only [List.cons_append]
+            rw [escStep_u_long] at h ⊢
+            cases hp : parseHex4 h0 h1 h2 h3 with
+            | none => simp [hp] at h
+            | some v1 =>
+              simp only [hp] at h ⊢
+              by_cases hsur : (v && Utf8.isSurrogate v1) = true
+              · simp only [hsur, if_true] at h ⊢
+                have hg := lowSurrogateStep_eof v1 _ r6 g h
+                subst hg
+                rcases lowSurrogateStep_flags v1 ⟨true, uEscNonCanonical v1 h0 h1 h2 h3⟩ (r6 ++ e) with h' | h' <;>
+                  rw [h']
+                · exact VFlags.join_self _
+                · rw [← VFlags.join_assoc, VFlags.join_self]
+              · simp only [hsur, Bool.false_eq_true, if_false] at h
+                exact absurd h (by simp)
+          all_goals
+            (have : g = .nv := by
+               simp only [escStep, isSimpleEscape] at h; simp at h
+               split at h <;> simp_all
+             subst this; exact join_absorb_of_nv _ hnv)
+        · simp [escStep, hs, hq, hu] at h
+
+theorem strStep_eof_absorb (c : UInt8) (r1 e : Bytes) (v : Bool) (g : VFlags)
+    (h : strStep c r1 v = .stop g .eof) :
+    g.join (strStep c (r1 ++ e) v).flags = (strStep c (r1 ++ e) v).flags := by
+  by_cases hne : noEscape c = true
+  · simp [strStep, hne] at h
+  · have hne' : noEscape c = false := by simpa using hne
+    by_cases hq : (c == 0x22) = true
+    · simp [strStep, hne', hq] at h
+    · have hq' : (c == 0x22) = false := by simpa using hq
+      by_cases hfull : Utf8.fullRune (c :: r1) = true
+      · have hd : Utf8.decodeRune (c :: (r1 ++ e)) = Utf8.decodeRune (c :: r1) :=
+          Utf8.decodeRune_append_of_full (c :: r1) e hfull
+        have hf : Utf8.fullRune (c :: (r1 ++ e)) = true := Utf8.fullRune_append (c :: r1) e hfull
+        unfold strStep at h ⊢
+        simp only [hne', hq', hd, hf, hfull, Bool.false_eq_true, if_false, Bool.not_true] at h ⊢
+        by_cases h2 : (Utf8.decodeRune (c :: r1)).2 > 1
+        · simp only [h2, if_true] at h; exact absurd h (by simp)
+        · simp only [h2, if_false] at h ⊢
+          by_cases h5 : ((Utf8.decodeRune (c :: r1)).1 == 0x5C) = true
+          · simp only [h5, if_true] at h ⊢
+            exact escStep_eof_absorb r1 e v g h
+          · simp only [h5, Bool.false_eq_true, if_false] at h ⊢
+            by_cases hre : ((Utf8.decodeRune (c :: r1)).1 == Utf8.runeError) = true
+            · simp only [hre, if_true] at h
+              cases v <;> simp at h
+            · simp only [hre, Bool.false_eq_true, if_false] at h
+              exact absurd h (by simp)
+      · have hfull' : Utf8.fullRune (c :: r1) = false := by simpa using hfull
+        rw [strStep_not_full c r1 v hne' hq' hfull'] at h
+        have : g = .none := by injection h with h1 _; exact h1.symm
+        subst this; exact VFlags.none_join _
+
+
+/-- if the first step's flags absorb `g`, so do the flags of the whole loop -/
+theorem strLoop_absorb (c : UInt8) (r : Bytes) (n : Nat) (v : Bool) (g : VFlags)
+    (h : g.join (strStep c r v).flags = (strStep c r v).flags) :
+    g.join (strLoop (c :: r) n .none v).2.1 = (strLoop (c :: r) n .none v).2.1 := by
+  rw [strLoop_cons]
+  cases hs : strStep c r v with
+  | adv k g2 =>
+    simp only [hs, Step.flags] at h ⊢
+    rw [strLoop_flags]
+    simp only [VFlags.none_join]
+    rw [← VFlags.join_assoc, h]
+  | done =>
+    simp only [hs, Step.flags] at h ⊢
+    exact h
+  | stop g2 e2 =>
+    simp only [hs, Step.flags, VFlags.none_join] at h ⊢
+    exact h
+
+theorem strLoop_resume (r : Bytes) : ∀ (n0 : Nat) (f : VFlags) (v : Bool) (n : Nat) (f' : VFlags),
+    strLoop r n0 f v = (n, f', .eof) →
+    n0 ≤ n ∧ n - n0 ≤ r.length ∧
+    ∀ e, strLoop ((r ++ e).drop (n - n0)) n f' v = strLoop (r ++ e) n0 f v := by
+  induction hlen : r.length using Nat.strongRecOn generalizing r with
+  | ind len ih =>
+    intro n0 f v n f' h
+    cases r with
+    | nil =>
+      rw [strLoop_nil] at h
+      injection h with h1 h2; injection h2 with h2 _
+      subst h1; subst h2
+      simp
+    | cons c r1 =>
+      rw [strLoop_cons] at h
+      cases hs : strStep c r1 v with
+      | adv k g =>
+        simp only [hs] at h
+        obtain ⟨hadv, hk⟩ := strStep_adv_append c r1 [] v k g hs
+        have hlt : (r1.drop k).length < len := by subst hlen; simp [List.length_drop]; omega
+        obtain ⟨h1, h2, h3⟩ := ih _ hlt (r1.drop k) rfl (n0 + k + 1) (f.join g) v n f' h
+        refine ⟨by omega, ?_, ?_⟩
+        · have hd : (r1.drop k).length = r1.length - k := List.length_drop
+          subst hlen
+          rw [hd] at h2 hlt
+          simp only [List.length_cons] at hlt ⊢; omega
+        · intro e
+          obtain ⟨hadv', _⟩ := strStep_adv_append c r1 e v k g hs
+          have := h3 e
+          rw [List.cons_append, strLoop_cons, hadv']
+          simp only
+          rw [List.drop_append_of_le_length hk, ← this]
+          have hsplit : n - n0 = (k + (n - (n0 + k + 1))) + 1 := by omega
+          rw [hsplit, List.drop_succ_cons, ← List.drop_drop, List.drop_append_of_le_length hk]
+      | done =>
+        simp only [hs] at h
+        injection h with _ h2; injection h2 with _ h3; exact absurd h3 (by simp)
+      | stop g e' =>
+        simp only [hs] at h
+        injection h with h1 h2; injection h2 with h2 h3
+        subst h1; subst h2; subst h3
+        refine ⟨by omega, by simp, ?_⟩
+        intro e
+        simp only [Nat.sub_self, List.drop_zero, List.cons_append]
+        have habs := strLoop_absorb c (r1 ++ e) n0 v g (strStep_eof_absorb c r1 e v g hs)
+        rw [strLoop_flags (c :: (r1 ++ e)) n0 (f.join g), strLoop_flags (c :: (r1 ++ e)) n0 f]
+        rw [VFlags.join_assoc, habs]
+
+/-- `str_resume`: if a scan from scratch of `b` reports io.ErrUnexpectedEOF with resume offset `n` and flags `f'`,
+then resuming at `n` with `f'` over ANY extension `b ++ e` returns exactly what a scan of `b ++ e` from scratch
+(with the original flags) returns: same offset, same flags, same error class. -/
+theorem str_resume_eq (f : VFlags) (b e : Bytes) (v : Bool) (n : Nat) (f' : VFlags)
+    (h : consumeStringResumable f b 0 v = (n, f', .eof)) :
+    consumeStringResumable f' (b ++ e) n v = consumeStringResumable f (b ++ e) 0 v := by
+  cases b with
+  | nil =>
+    simp [consumeStringResumable] at h
+    obtain ⟨h1, h2⟩ := h
+    subst h1; subst h2; rfl
+  | cons c r =>
+    simp only [consumeStringResumable, Nat.lt_irrefl, if_false] at h
+    by_cases hq : (c == 0x22) = true
+    · simp only [hq, if_true] at h
+      obtain ⟨h1, h2, h3⟩ := strLoop_resume r 1 f v n f' h
+      have hpos : n > 0 := by omega
+      simp only [consumeStringResumable, hpos, if_true, Nat.lt_irrefl, if_false, List.cons_append, hq]
+      have hsplit : n = (n - 1) + 1 := by omega
+      rw [← h3 e]
+      have hdrop : (c :: (r ++ e)).drop n = (r ++ e).drop (n - 1) := by
+        conv => lhs; rw [hsplit, List.drop_succ_cons]
+      rw [hdrop]
+    · simp [hq] at h
+
+
 end JsonV.Model.Resume
